@@ -241,7 +241,14 @@ namespace {
          }
          Hist h{ 0, { order }, 0, 0 };
          std::vector<const ipr::Qualified*> got;
-         for (auto& [m, t] : keys) { got.push_back(&w.lex.get_qualified(w.q[m], *types[std::size_t(t)])); rep.count("transitions"); rep.count("states"); }
+         for (auto& [m, t] : keys) {
+            // a refused request on the very type that is qualified next (nothing of it may survive into that request)
+            try { (void) w.lex.get_qualified(ipr::Qualifiers{ }, *types[std::size_t(t)]); fail("C11:empty-set-accepted", h, "get_qualified with an empty qualifier set returned a node instead of refusing"); } catch (...) { }
+            got.push_back(&w.lex.get_qualified(w.q[m], *types[std::size_t(t)]));
+            if (got.back()->qualifiers() != w.q[m] or &got.back()->main_variant() != types[std::size_t(t)]) { fail("C11:main-variant-wrong", h, "right after a refused request on the same type, get_qualified(" + mask_text(m) + ", T) returned a node with other qualifiers or another main variant (insertion order #" + std::to_string(order) + ")"); break; }
+            rep.count("transitions"); rep.count("states");
+         }
+         if (got.size() != keys.size()) { rep.count("traces"); continue; }
          for (std::size_t i = 0; i < keys.size(); ++i) {
             rep.count("transitions");
             const ipr::Qualified& again = w.lex.get_qualified(w.q[keys[i].first], *types[std::size_t(keys[i].second)]);
